@@ -107,6 +107,8 @@ def yield_components(ops, acc=None):
 
 
 def lit(v):
+    if v != v:
+        return "ieee_value(1d0, ieee_quiet_nan)"
     s = repr(float(v))
     if "e" in s:
         s = s.replace("e", "d")
@@ -124,6 +126,7 @@ def make_driver(sc, nmgr, pers, yields, n_elem):
     a = L.append
     a("program driver")
     struct = getattr(sc, "struct", None)
+    a("  use, intrinsic :: ieee_arithmetic")
     a("  use m, only: dagrt_state_type, dagrt_initialize => initialize, dagrt_run => run, &")
     a("    dagrt_shutdown => shutdown" + (", ytype" if struct else ""))
     a("  implicit none")
@@ -344,9 +347,14 @@ def interp_reference(ctx, code, twins, sc, n_runs, has_y):
             raise Discard("ill-defined:interpreter-raises:" + type(e).__name__)
         store = {k: (np.array(v, dtype=float).copy() if isinstance(v, np.ndarray) else v)
                  for k, v in it.context.items() if is_persistent(k)}
+        nan_ok = getattr(sc, "has_nan", False)     # (the script starts from a NaN on purpose)
         for k, v in store.items():
-            bad = (not np.all(np.isfinite(v))) if isinstance(v, np.ndarray) else (
-                not isinstance(v, (bool, np.bool_)) and not math.isfinite(v))
+            if nan_ok:
+                bad = bool(np.any(np.isinf(v))) if isinstance(v, np.ndarray) else (
+                    not isinstance(v, (bool, np.bool_)) and math.isinf(v))
+            else:
+                bad = (not np.all(np.isfinite(v))) if isinstance(v, np.ndarray) else (
+                    not isinstance(v, (bool, np.bool_)) and not math.isfinite(v))
             big = (np.any(np.abs(v) > 1e100)) if isinstance(v, np.ndarray) else (
                 not isinstance(v, (bool, np.bool_)) and abs(v) > 1e100)
             if bad or big:
@@ -677,6 +685,10 @@ def run_fortran_engine(ctx, prop):
         ctx.count("probe:array_overwritten_with_other_length", sc.n_shrink)
     if getattr(sc, "n_condpair", 0):
         ctx.count("probe:same_condition_twice", sc.n_condpair)
+    if getattr(sc, "has_nan", False):
+        ctx.count("probe:nan_in_initial_state")
+    if getattr(sc, "n_poly", 0):
+        ctx.count("probe:name_scalar_in_one_phase_array_in_another")
     if getattr(sc, "n_twin", 0):
         ctx.count("probe:twin_phase", sc.n_twin)
     if getattr(sc, "struct", None):
